@@ -190,7 +190,15 @@ inductive MwKind where
   | rename (method : String)                   -- calls next with the method name replaced
   | setParams (p : Params)                     -- calls next with the params replaced
   | wrapResult                                 -- calls next; a successful result r becomes [r]
+  | appendParam (v : Json)                     -- mutates `request.params` in place (`.append(v)` when it is a list), then calls next
   deriving Repr, DecidableEq, Inhabited
+
+/-- `request.params.append(v)` on the request's own parameter list (absent parameters are an empty list). -/
+def Params.appended (p : Params) (v : Json) : Params :=
+  match p with
+  | .pos l => .pos (l ++ [v])
+  | .none => .pos [v]
+  | other => other
 
 def MwKind.apply (idx : Nat) (k : MwKind) (next : Handler) : Handler := fun req ctx =>
   let enter := Event.mwEnter idx req.method ctx
@@ -209,6 +217,9 @@ def MwKind.apply (idx : Nat) (k : MwKind) (next : Handler) : Handler := fun req 
     (r, enter :: ev ++ [leave])
   | .setParams p =>
     let (r, ev) := next { req with params := p } ctx
+    (r, enter :: ev ++ [leave])
+  | .appendParam v =>
+    let (r, ev) := next { req with params := req.params.appended v } ctx
     (r, enter :: ev ++ [leave])
   | .wrapResult =>
     let (r, ev) := next req ctx
